@@ -889,9 +889,10 @@ class UnionByTypeMethod(DeserializationMethod):
     def deserialize(self, data: Any) -> Any:
         try:
             method: DeserializationMethod = self.method_by_cls[type(data)]
-            return method.deserialize(data)
         except KeyError:
             raise bad_type(data, *self.method_by_cls) from None
+        try:
+            return method.deserialize(data)
         except ValidationError as err:
             other_classes = (cls for cls in self.method_by_cls if cls is not type(data))
             raise merge_errors(err, bad_type(data, *other_classes))
